@@ -115,5 +115,68 @@ func runRecord(c *Case) {
 	}
 	if !ok {
 		c.Oracle = "roundtrip-differs"
+		return
+	}
+	// strict prefixes and trailing bytes. Record.Unmarshal has no error result: a cut record is "rejected" when the
+	// decoder faults (recovered here); the empty prefix is a documented no-op (the destination is left untouched).
+	// Every prefix is handed over in a buffer of exactly its length (no spare capacity to read stale bytes from).
+	same := func(x *record.Record) bool {
+		if len(x.Schema) != len(rec.Schema) || len(x.ColVals) != len(rec.ColVals) {
+			return false
+		}
+		for i := range rec.Schema {
+			a, b := &rec.ColVals[i], &x.ColVals[i]
+			if rec.Schema[i] != x.Schema[i] || !bytes.Equal(a.Val, b.Val) || !bytes.Equal(a.Bitmap, b.Bitmap) || a.Len != b.Len ||
+				a.NilCount != b.NilCount || a.BitMapOffset != b.BitMapOffset || len(a.Offset) != len(b.Offset) {
+				return false
+			}
+			for j := range a.Offset {
+				if a.Offset[j] != b.Offset[j] {
+					return false
+				}
+			}
+		}
+		return true
+	}
+	ks := map[int]bool{}
+	if len(buf) <= 300 {
+		for k := 1; k < len(buf); k++ {
+			ks[k] = true
+		}
+	} else {
+		for k := 1; k <= 40; k++ {
+			ks[k] = true
+		}
+		for i := 0; i < 60; i++ {
+			ks[1+r.Intn(len(buf)-1)] = true
+		}
+		ks[len(buf)-1], ks[len(buf)-2], ks[len(buf)-4], ks[len(buf)-8] = true, true, true, true
+	}
+	for k := range ks {
+		cut := make([]byte, k)
+		copy(cut, buf[:k])
+		x := &record.Record{}
+		if p := protect(func() { x.Unmarshal(cut) }); p == "" {
+			c.Pref = append(c.Pref, k) // a strict prefix decoded without a fault
+		} else {
+			c.PPanic++
+		}
+	}
+	sortInts(c.Pref)
+	if len(c.Pref) > 0 {
+		c.Oracle = "prefix-accepted"
+		return
+	}
+	// the empty buffer leaves the destination untouched
+	x := &record.Record{}
+	if p := protect(func() { x.Unmarshal(nil) }); p != "" || len(x.Schema) != 0 || len(x.ColVals) != 0 {
+		c.Oracle, c.Bad = "roundtrip-differs", "empty buffer: "+p
+		return
+	}
+	// trailing bytes after a complete record are ignored
+	tail := append(append(make([]byte, 0, len(buf)+9), buf...), 0xff, 0, 1, 2, 0xff, 0xff, 0xff, 0xff, 7)
+	y := &record.Record{}
+	if p := protect(func() { y.Unmarshal(tail) }); p != "" || !same(y) {
+		c.Oracle, c.Bad = "roundtrip-differs", "trailing bytes are not ignored: "+p
 	}
 }
